@@ -12,8 +12,12 @@ use std::borrow::Cow;
 use std::convert::Infallible;
 use std::fmt::Display;
 
-const KEYWORDS: [&str; 9] = [
-    "use", "mod", "const", "type", "pub", "enum", "struct", "impl", "trait",
+const KEYWORDS: [&str; 51] = [
+    "use", "mod", "const", "type", "pub", "enum", "struct", "impl", "trait", "as", "break",
+    "continue", "crate", "else", "extern", "false", "fn", "for", "if", "in", "let", "loop",
+    "match", "move", "mut", "ref", "return", "self", "static", "super", "true", "unsafe", "where",
+    "while", "async", "await", "dyn", "abstract", "become", "box", "do", "final", "macro",
+    "override", "priv", "typeof", "unsized", "virtual", "yield", "try", "gen",
 ];
 
 pub trait GeneratorSupplement<T> {
